@@ -197,6 +197,49 @@ def slot_obligations(record):
     return problems
 
 
+FLAG_PARAMS = ("omit_none", "by_alias", "dialect", "context")
+
+
+def flag_threading_problems(records):
+    """keyword flags are threaded: inside a generated function F, every call of a generated helper m (a function
+    defined in one of the harvested texts, reached as self.m / cls.m / attrs.m / a bare alias - including F itself,
+    i.e. recursion through a recursive type alias) passes k=k for every flag k that both F and m declare.  The
+    callee's signature is read from its own harvested definition (modular: caller against callee's contract)."""
+    index = {}
+    for r in records:
+        try:
+            m = ast.parse(r.text)
+        except SyntaxError:
+            continue
+        for fn in [n for n in ast.walk(m) if isinstance(n, ast.FunctionDef)]:
+            index.setdefault(fn.name, fn)
+    problems = []
+    ncalls = 0
+    for fname, fn in index.items():
+        kw_f = {a.arg for a in fn.args.kwonlyargs} & set(FLAG_PARAMS)
+        # a flag the function never reads is vestigial (unpack helpers always declare dialect=None): nothing to thread
+        used = {n.id for n in ast.walk(fn) if isinstance(n, ast.Name) and isinstance(n.ctx, ast.Load)}
+        kw_f &= used
+        if not kw_f:
+            continue
+        for c in ast.walk(fn):
+            if not isinstance(c, ast.Call):
+                continue
+            f = c.func
+            callee = f.attr if isinstance(f, ast.Attribute) else (f.id if isinstance(f, ast.Name) else None)
+            if callee is None or callee not in index or callee.startswith("__mashumaro_"):
+                continue  # entry-point units have the opt-in rule of their own (checked with the nested-call reference)
+            if isinstance(f, ast.Attribute) and not (isinstance(f.value, ast.Name) and (f.value.id in ("self", "cls", "_cls") or f.value.id.startswith("attrs"))):
+                continue
+            ncalls += 1
+            kw_m = {a.arg for a in index[callee].args.kwonlyargs} & set(FLAG_PARAMS)
+            need = kw_f & kw_m
+            passed = {k.arg for k in c.keywords if isinstance(k.value, ast.Name) and k.value.id == k.arg}
+            if not need <= passed:
+                problems.append(f"{fname}: the call of {callee} drops {sorted(need - passed)} (both declare them)")
+    return problems, ncalls
+
+
 def owned_call_problems(record):
     """call sites `<class expression>.__mashumaro_*__(...)` / `cls.__mashumaro_*__(...)` inside a generated
     function: the named unit must be defined on that very class (vars(K)), not inherited from an ancestor for
